@@ -20,6 +20,7 @@ import (
 	"encoding/binary"
 	"fmt"
 	"math/rand"
+	"os"
 	"sync"
 
 	"github.com/skycoin/skycoin/src/cipher"
@@ -29,6 +30,7 @@ import (
 	"github.com/skycoin/skycoin/src/daemon/pex"
 	"github.com/skycoin/skycoin/src/util/logging"
 
+	"verif/lib/rp"
 	"verif/lib/vf"
 )
 
@@ -64,6 +66,7 @@ func blockSize(b *coin.SignedBlock) uint64 {
 // request is one item list of one message family
 type request struct {
 	fam   *family
+	list  string   // "<list index>/<profile>": with the seed, identifies the item list for replay
 	n     int      // number of requested items
 	sizes []uint64 // wire size of every requested item
 	data  interface{}
@@ -304,7 +307,7 @@ func limitsFor(rq *request, rng *rand.Rand, extra int) []uint64 {
 
 func check(r *vf.Run, l *local, rq *request, max uint64) {
 	f := rq.fam
-	attrs := map[string]string{"message": f.name, "max": fmt.Sprint(max), "requested": fmt.Sprint(rq.n)}
+	attrs := map[string]string{"message": f.name, "max": fmt.Sprint(max), "requested": fmt.Sprint(rq.n), "list": rq.list}
 	var m gnet.Serializer
 	var k int
 	p, msg, frame := vf.Recover(func() { m, k = f.build(rq, max) })
@@ -322,6 +325,21 @@ func check(r *vf.Run, l *local, rq *request, max uint64) {
 		return
 	}
 	kmax := len(rq.cum) - 1
+	// boundary classes of the input pair (request, max), from the size model alone:
+	// kfit = the longest prefix that fits
+	kfit := 0
+	for kfit < kmax && rq.cum[kfit+1] <= max {
+		kfit++
+	}
+	if rq.cum[kfit] == max {
+		l.counts[f.name+".exact_fit"]++
+	}
+	if kfit < kmax && rq.cum[kfit+1]-max == 1 {
+		l.counts[f.name+".next_item_one_byte_over"]++
+	}
+	if kfit < kmax && rq.cum[kfit+1]-max <= 4 {
+		l.counts[f.name+".next_item_1_to_4_bytes_over"]++
+	}
 	// (a) fits: the comparison sendMessage applies
 	if uint64(len(enc)) > max {
 		attrs["encoded_len"] = fmt.Sprint(len(enc))
@@ -360,14 +378,22 @@ func check(r *vf.Run, l *local, rq *request, max uint64) {
 	default:
 		l.counts[f.name+".truncated_by_size"]++
 	}
-	if uint64(len(enc)) == max {
-		l.counts[f.name+".exact_fit"]++
+}
+
+// listLength: the first lists of a family have fixed lengths around the item cap, the others a
+// random length drawn from the list's own PRNG
+func listLength(rng *rand.Rand, f *family, idx int) int {
+	fixed := []int{0, 1, 2, 3, f.cap - 1, f.cap, f.cap + 1, 600}
+	if idx < len(fixed) {
+		return fixed[idx]
 	}
-	if k < kmax && rq.cum[k+1] == max+1 {
-		l.counts[f.name+".next_item_one_byte_over"]++
-	}
-	if k < kmax && rq.cum[k+1] > max && rq.cum[k+1] <= max+4 {
-		l.counts[f.name+".next_item_1_to_4_bytes_over"]++
+	switch rng.Intn(3) {
+	case 0:
+		return rng.Intn(12)
+	case 1:
+		return rng.Intn(f.cap + 1)
+	default:
+		return rng.Intn(601)
 	}
 }
 
@@ -378,25 +404,43 @@ func main() {
 	mc.Register()
 
 	fams := families()
+	if p := r.ReplayPath(); p != "" {
+		f := rp.Load(p, "C23")
+		r.Seed = f.Seed
+		var idx, profile int
+		if _, err := fmt.Sscanf(f.Attrs["list"], "%d/%d", &idx, &profile); err != nil {
+			fmt.Fprintln(os.Stderr, "replay: bad list attribute:", err)
+			os.Exit(3)
+		}
+		for _, fam := range fams {
+			if fam.name != f.Attrs["message"] {
+				continue
+			}
+			rng := r.Rand("list", fam.name, idx)
+			// the list length is either fixed by the index or the first draws of the list's PRNG;
+			// it is recorded in the file, and the draws are repeated to keep the stream aligned
+			n := listLength(rng, fam, idx)
+			rq := fam.gen(rng, n, profile)
+			rq.list = f.Attrs["list"]
+			if uint64(n) != f.U64("requested") || !prepare(r, rq, rng) {
+				fmt.Fprintln(os.Stderr, "replay: could not rebuild the item list")
+				os.Exit(3)
+			}
+			check(r, newLocal(), rq, f.U64("max"))
+		}
+		rp.Done("C23", r.Violations())
+	}
 	listsPerFam := r.Pick(32, 600)
 	extraLimits := r.Pick(200, 2000)
 	type job struct {
 		fam     *family
 		idx     int
-		n       int
 		profile int
 	}
 	jobs := []job{}
 	for _, f := range fams {
-		fixed := []int{0, 1, 2, 3, f.cap - 1, f.cap, f.cap + 1, 600}
 		for i := 0; i < listsPerFam; i++ {
-			n := 0
-			if i < len(fixed) {
-				n = fixed[i]
-			} else {
-				n = -1 // random, chosen in the worker from the job's PRNG
-			}
-			jobs = append(jobs, job{f, i, n, i % 3})
+			jobs = append(jobs, job{f, i, i % 3})
 		}
 	}
 	var mu sync.Mutex
@@ -408,18 +452,9 @@ func main() {
 		locals = append(locals, l)
 		mu.Unlock()
 		rng := r.Rand("list", j.fam.name, j.idx)
-		n := j.n
-		if n < 0 {
-			switch rng.Intn(3) {
-			case 0:
-				n = rng.Intn(12)
-			case 1:
-				n = rng.Intn(j.fam.cap + 1)
-			default:
-				n = rng.Intn(601)
-			}
-		}
+		n := listLength(rng, j.fam, j.idx)
 		rq := j.fam.gen(rng, n, j.profile)
+		rq.list = fmt.Sprintf("%d/%d", j.idx, j.profile)
 		if !prepare(r, rq, rng) {
 			return
 		}
